@@ -26,9 +26,9 @@ PROP = dict(
         "VM heap objects are treated as immutable trees (object identity, allocation and collection are outside this property)",
     ],
     assumptions=[
-        "generated bindings are embedded with `pub use generated::*;` at the crate root; two probes (reported as known-finding ids, see coverage.notes) "
-        "record that with the private `use generated::*;` of /repo/e2e_tests/test_host_funcs the code generated for `use m as p` does not compile (E0365) and that two "
-        "#host types of one name in two modules give ambiguous Rust names (E0659, name_of_ty drops the qualifier)",
+        "two hard probes build the bindings generated for (a) a host file with `use m as p` and (b) two #host types of one name in two modules, embedded as "
+        "/repo/e2e_tests/test_host_funcs does (`mod generated; use generated::*;`): D104/D105; the main child crate re-exports publicly so that the run-time "
+        "round trip of all four import forms is tested independently of D104",
         "1-tuples are not expressible as Abra host signatures and are not exercised",
         "signatures are built from the supported types only (functions, polymorphic and wildcard types are rejected by name_of_ty with a *NotSupported name)",
         "the quantifier over signatures is carried by the induction on types in the theorems; the correspondence samples it on the fixed 62-signature file",
